@@ -60,4 +60,18 @@ theorem C14_unguarded_discard_side_effect :
     let s : TxSt := { heads := [("a", .orig 1)], staged := [("a", 2)], logs := [], exists_ := true, committed := true, objects := [] }
     (txDiscard false s).1.staged ≠ s.staged := tx_unguarded_discard_side_effect
 
+/-- Discard interrupted by a failing store operation (at any position, any deletion order): no
+    branch, log or object is touched; it reports success only when every staged ref and the
+    transaction row are gone; and discarding again completes it. -/
+theorem C14_discard_fault (order : List String) (k : Nat) (s : TxSt) :
+    let r := txDiscardFault Facts.txDiscardGuardFirst order k s
+    r.1.heads = s.heads ∧ r.1.logs = s.logs ∧ r.1.objects = s.objects ∧ r.1.committed = s.committed ∧
+    (r.2 = .ok → r.1.staged = [] ∧ r.1.exists_ = false) ∧
+    (s.exists_ = true → s.committed = false →
+      (txDiscard Facts.txDiscardGuardFirst r.1).1.staged = [] ∧ (txDiscard Facts.txDiscardGuardFirst r.1).1.exists_ = false) := by
+  rw [C14_fact_discardGuardFirst]
+  unfold txDiscardFault txDiscard
+  by_cases he : s.exists_ <;> by_cases hc : s.committed <;> simp [he, hc] <;>
+    (split <;> try split) <;> simp_all
+
 end Wrgl
